@@ -1,5 +1,5 @@
 // ---- small std / third-party gaps (trusted) ----
-pub struct Version { pub _o: u8 }   // semver::Version, opaque
+#[derive(Debug)] pub struct Version { pub _o: u8 }   // semver::Version, opaque
 /// only powers of ten are used by the code under contract; 10^38 < 2^128 <= 10^39
 pub assume_specification [u128::pow] (base: u128, e: u32) -> (r: u128)
     requires base == 10, e <= 38
@@ -7,3 +7,31 @@ pub assume_specification [u128::pow] (base: u128, e: u32) -> (r: u128)
 /// arbitrary value standing for the dropped tail of an M3 guard-prefix slice
 #[verifier::external_body]
 pub fn verif_havoc<T>() -> (r: T) { unimplemented!() }
+/// Decimal::from_str for the two literals the code under contract uses; any other literal is unspecified
+/// (a changed constant therefore fails the dependent postconditions instead of being silently accepted).
+impl FromStr for Decimal {
+    type Err = StdError;
+    #[verifier::external_body]
+    fn from_str(s: &str) -> (r: Result<Decimal, StdError>)
+        ensures
+            s@ == ("0.01")@ ==> r is Ok && r->Ok_0@ == 10_000_000_000_000_000nat,
+            s@ == ("0.5")@ ==> r is Ok && r->Ok_0@ == 500_000_000_000_000_000nat,
+    { unimplemented!() }
+}
+#[derive(Debug)] pub struct PaymentError { pub _o: u8 }   // cw_utils::PaymentError, opaque
+// num_traits::ToPrimitive for the native conversions used by the 3pool curve
+pub trait ToPrimitive: Sized {
+    spec fn prim_val(&self) -> nat;
+    fn to_u128(&self) -> (r: Option<u128>) ensures self.prim_val() <= u128::MAX ==> r == Some(self.prim_val() as u128), self.prim_val() > u128::MAX ==> r is None;
+    fn to_u64(&self) -> (r: Option<u64>) ensures self.prim_val() <= u64::MAX ==> r == Some(self.prim_val() as u64), self.prim_val() > u64::MAX ==> r is None;
+}
+impl ToPrimitive for u64 {
+    open spec fn prim_val(&self) -> nat { *self as nat }
+    #[verifier::external_body] fn to_u128(&self) -> (r: Option<u128>) { unimplemented!() }
+    #[verifier::external_body] fn to_u64(&self) -> (r: Option<u64>) { unimplemented!() }
+}
+impl ToPrimitive for u128 {
+    open spec fn prim_val(&self) -> nat { *self as nat }
+    #[verifier::external_body] fn to_u128(&self) -> (r: Option<u128>) { unimplemented!() }
+    #[verifier::external_body] fn to_u64(&self) -> (r: Option<u64>) { unimplemented!() }
+}
